@@ -4,6 +4,7 @@ import (
 	"fmt"
 
 	"github.com/herohde/morlock/pkg/board"
+	"github.com/herohde/morlock/pkg/board/fen"
 	"verifharness/bridge"
 	"verifharness/gen"
 	"verifharness/oracle"
@@ -174,4 +175,9 @@ func dedup(in []string) []string {
 		}
 	}
 	return out
+}
+
+// fenOf is the FEN of a game board (through the repository's encoder).
+func fenOf(b *board.Board) string {
+	return fen.Encode(b.Position(), b.Turn(), b.NoProgress(), b.FullMoves())
 }
